@@ -1,7 +1,8 @@
 (* C04 - Request metadata, response headers and trailers arrive intact.
    Property theorems only; proofs are in Proofs/{Base64,Meta,SrvStream}Proofs.v. *)
-From Goat Require Import Base.Bytes Model.Base64 Model.Meta Model.SrvStream.
-From Goat Require Import Proofs.Base64Proofs Proofs.MetaProofs Proofs.SrvStreamProofs.
+From Coq Require Import Permutation.
+From Goat Require Import Base.Bytes Model.Base64 Model.Meta Model.SrvStream Model.MetaSys.
+From Goat Require Import Proofs.Base64Proofs Proofs.MetaProofs Proofs.SrvStreamProofs Proofs.MetaSysProofs.
 Open Scope N_scope.
 
 (* base64 under -bin keys is byte-exact for every byte string (NUL, 0xFF and
@@ -65,6 +66,81 @@ Theorem C04_flush_trailers : forall (MD P ST : Type) (s : sstate MD) (ops : list
 Proof. intros MD P ST. exact flush_trailers. Qed.
 Print Assumptions C04_flush_trailers.
 
+(* ---- the whole RPC (Model/MetaSys.v: composition of the models above with
+   the client-side functions) ---- *)
+
+(* request: for every outgoing metadata map (in any iteration order), with or
+   without a deadline: the handler's incoming metadata is the normalised caller
+   metadata plus, when there is a deadline, the injected grpc-timeout entry ... *)
+Theorem C04_sys_request : forall om,
+  wf_md om = true ->
+  handler_md (request_kvs om None) = Some (norm om) /\
+  forall v, handler_md (request_kvs om (Some v)) = Some (md_append injected_lkey v (norm om)).
+Proof.
+  intros om H. split; [apply request_without_deadline; exact H|].
+  intro v. apply request_with_deadline. exact H.
+Qed.
+Print Assumptions C04_sys_request.
+
+(* ... and minus that key it is exactly the normalised caller metadata *)
+Theorem C04_sys_request_exact : forall om tmo,
+  wf_md om = true ->
+  (forall e, In e om -> lower (fst e) <> injected_lkey) ->
+  option_map (drop_key injected_lkey) (handler_md (request_kvs om tmo)) = Some (norm om).
+Proof. exact request_minus_injected. Qed.
+Print Assumptions C04_sys_request_exact.
+
+(* response headers of a streaming RPC (client-, server-, bidirectional alike:
+   one server stream object): for EVERY handler program over SetHeader,
+   SendHeader, SetTrailer, SendMsg followed by runStream's SendTrailer with the
+   handler's result st (nil or any error) and every iteration order [emit] of the
+   joined map, the caller's Header() is the normalised join of every accepted
+   header map - whichever of the three ways the headers leave (SendHeader, with
+   the first message, with the final status) - and no later envelope carries
+   header metadata *)
+Theorem C04_sys_stream_header : forall (P ST : Type) (emit : mdmap -> mdmap) (ops : list (sop mdmap P ST)) (st : ST),
+  Forall not_trailer ops ->
+  wf_md (emit (join (accepted_hdrs sinit ops))) = true ->
+  client_header emit (stream_envs ops st) = Some (Some (norm (emit (join (accepted_hdrs sinit ops))))) /\
+  match stream_envs ops st with
+  | [] => False
+  | _ :: rest => Forall (fun e => env_kvs emit e = []) rest
+  end.
+Proof. intros P ST. exact sys_stream_header. Qed.
+Print Assumptions C04_sys_stream_header.
+
+(* the caller's Trailer() is the normalised join of every SetTrailer argument,
+   on a nil and on an error return alike *)
+Theorem C04_sys_stream_trailer : forall (P ST : Type) (emit : mdmap -> mdmap) (ops : list (sop mdmap P ST)) (st : ST),
+  Forall not_trailer ops ->
+  wf_md (emit (join (accepted_trls sinit ops))) = true ->
+  client_trailer emit (stream_envs ops st) = Some (Some (norm (emit (join (accepted_trls sinit ops))))).
+Proof. intros P ST. exact sys_stream_trailer. Qed.
+Print Assumptions C04_sys_stream_trailer.
+
+(* unary: what grpc.SetHeader / SendHeader / SetTrailer collected decodes (stats
+   InHeader event; trailer list on the wire) to the normalised join *)
+Theorem C04_sys_unary : forall (emit : mdmap -> mdmap) (s : ustate mdmap),
+  (wf_md (emit (join (uh s))) = true -> to_md (unary_header_kvs emit s) = Some (norm (emit (join (uh s))))) /\
+  (wf_md (emit (join (ut s))) = true -> to_md (unary_trailer_kvs emit s) = Some (norm (emit (join (ut s))))).
+Proof. exact sys_unary. Qed.
+Print Assumptions C04_sys_unary.
+
+(* in all of these the iteration order does not matter: under keys that stay
+   distinct after lower-casing the normalised map holds, under each lower-cased
+   key, exactly that key's values in order, and nothing else *)
+Theorem C04_sys_values : forall (m m' : mdmap) k vs,
+  Permutation m' m ->
+  NoDup (map (fun e => lower (fst e)) m) -> In (k, vs) m ->
+  vals_of (lower k) (norm m') = vs.
+Proof. exact perm_values. Qed.
+Print Assumptions C04_sys_values.
+
+Theorem C04_sys_no_invention : forall (m m' : mdmap) k,
+  Permutation m' m -> (forall e, In e m -> lower (fst e) <> k) -> vals_of k (norm m') = [].
+Proof. exact perm_no_invention. Qed.
+Print Assumptions C04_sys_no_invention.
+
 (* non-vacuity *)
 Example C04_ex_codec :
   to_md (to_kv [(B"Trace-Bin", [bz [0; 255; 10]%Z; []]); (B"X-Key", [B"a"; B"b"])])
@@ -73,4 +149,12 @@ Proof. vm_compute. reflexivity. Qed.
 Example C04_ex_flush :
   swritten (@sinit nat) [SetHeader 1%nat; SetTrailer 7%nat; SendMsg 5%nat; SetHeader 2%nat; SendTrailer 0%nat]
   = [WMsg (Some [1%nat]) 5%nat; WTrailer None [7%nat] 0%nat].
+Proof. vm_compute. reflexivity. Qed.
+Example C04_ex_sys_request :
+  option_map (drop_key injected_lkey) (handler_md (request_kvs [(B"trace-bin", [bz [0; 255]%Z]); (B"x-key", [B"a"; B"b"])] (Some (B"250m"))))
+  = Some [(B"trace-bin", [bz [0; 255]%Z]); (B"x-key", [B"a"; B"b"])].
+Proof. vm_compute. reflexivity. Qed.
+Example C04_ex_sys_header_with_status :
+  client_header (fun m => m) (@stream_envs nat nat [SetHeader [(B"A-Bin", [bz [7]%Z])]; SetTrailer [(B"t", [B"1"])]; SetHeader [(B"A-Bin", [bz [0]%Z])]] 5%nat)
+  = Some (Some [(B"a-bin", [bz [7]%Z; bz [0]%Z])]).
 Proof. vm_compute. reflexivity. Qed.
